@@ -19,7 +19,7 @@
 import EG.Props.C05.GeneratedEllipse
 import EG.Props.C06.Circle
 import EG.Props.C06.Ellipse
-namespace EG.C06.Src
+namespace EG.C06.CurveSrc
 open EG EG.RectSrcPrelude EG.CurveSrcPrelude EG.Generated EG.C16.Src EG.C05.Src
 
 /-! ### `StyledScanline` -/
@@ -224,4 +224,4 @@ theorem src_ellipse_offset_shrink (e : CurveSrc.Ellipse) (k : Nat) (hk : 1 ≤ k
 example : 2 * 1 < (⟨⟨-3, 2⟩, ⟨7, 4⟩⟩ : CurveSrc.Ellipse).size.w ∧ 2 * 1 < (⟨⟨-3, 2⟩, ⟨7, 4⟩⟩ : CurveSrc.Ellipse).size.h ∧
     IsU32 (⟨⟨-3, 2⟩, ⟨7, 4⟩⟩ : CurveSrc.Ellipse).size := by decide
 
-end EG.C06.Src
+end EG.C06.CurveSrc
